@@ -189,8 +189,11 @@ def run_transform(sc):
         c2 = sets[(3 * n_ + 2) % len(sets)][1]
         i1, i2 = gauss_iq(q, c1), gauss_iq(q, c2)
         try:
-            r = {"raised": False, "error": "", "P1": fvec(T.apply(i1)), "P2": fvec(T.apply(i2)),
-                 "P12": fvec(T.apply(a * i1 + b * i2))}
+            # the three results are kept as returned and read only after the last call
+            p1 = T.apply(i1)
+            p2 = T.apply(i2)
+            p12 = T.apply(a * i1 + b * i2)
+            r = {"raised": False, "error": "", "P1": fvec(p1), "P2": fvec(p2), "P12": fvec(p12)}
         except Exception as ex:
             r = {"raised": True, "error": err_text(ex), "P1": [], "P2": [], "P12": []}
         emit({"tid": tid, "ev": "Linear", "args": {"c1": comps_json(c1), "c2": comps_json(c2),
